@@ -137,6 +137,11 @@ fn plan_inner(prop: &str, tier: &str) -> Option<Plan> {
                 for (n, d, sh) in deep {
                     jobs.extend(sharded(prop, "seqx", f, tier, json!({"n": n, "deep": d}), sh));
                 }
+                // every explored (merged) state continued by every unmerged suffix: (nodes, live edges, suffix length, shards)
+                let suffix: Vec<(usize, usize, usize, usize)> = if tier == "quick" { vec![(2, 3, 4, 2), (3, 3, 3, 16)] } else { vec![(2, 4, 5, 8), (3, 4, 3, 32), (3, 2, 4, 16), (4, 3, 2, 16)] };
+                for (n, l, k, sh) in suffix {
+                    jobs.extend(sharded(prop, "seqx", f, tier, json!({"n": n, "max_edges": l, "vals": 1, "suffix": k}), sh));
+                }
                 if prop == "C03" {
                     let (n, l) = if tier == "quick" { (2, 3) } else { (3, 3) };
                     jobs.push(job(prop, "seqx", f, tier, json!({"n": n, "max_edges": l, "vals": 1, "provenance": true})));
@@ -146,7 +151,7 @@ fn plan_inner(prop: &str, tier: &str) -> Option<Plan> {
                 jobs,
                 level: "model_checking".into(),
                 rule: match prop {
-                    "C01" => "BFS over all implementation states reachable with connect/try_connect/disconnect/isolate over all operand pairs (u==v included) within (nodes, live edges, edge values) bounds; every state is a history prefix; mirror invariant + query agreement checked on every state. evaluations = transitions executed on the real code; nontrivial = transitions that are removals, failing calls or have u==v. A second job walks five long connect-only families on 3 nodes (hub-out, hub-in, all-parallel, all-self-loops, mixed) edge by edge up to 24 (quick) / 48 (thorough) edges and applies every alphabet operation to every prefix, so list lengths past any inline-buffer or growth threshold are covered. A third job family executes EVERY history of <= d operations (quick: 2 nodes d=5, 3 nodes d=4; thorough: d=6 / 5, 4 nodes d=4) on one object without merging states and checks the invariant after its last call (hidden state surviving a call)".into(),
+                    "C01" => "BFS over all implementation states reachable with connect/try_connect/disconnect/isolate over all operand pairs (u==v included) within (nodes, live edges, edge values) bounds; every state is a history prefix; mirror invariant + query agreement checked on every state. evaluations = transitions executed on the real code; nontrivial = transitions that are removals, failing calls or have u==v. A second job walks five long connect-only families on 3 nodes (hub-out, hub-in, all-parallel, all-self-loops, mixed) edge by edge up to 24 (quick) / 48 (thorough) edges and applies every alphabet operation to every prefix, so list lengths past any inline-buffer or growth threshold are covered. A third job family executes EVERY history of <= d operations (quick: 2 nodes d=5, 3 nodes d=4; thorough: d=6 / 5, 4 nodes d=4) on one object without merging states and checks the invariant after its last call (hidden state surviving a call); a fourth continues every explored state (3 nodes <= 3 live edges quick, <= 4 thorough) by every unmerged suffix of 3 operations (2 nodes: 4 / 5)".into(),
                     "C02" => "same exploration on the undirected flavours; symmetry invariant + query agreement on every state; plus the long connect-only families (see C01) up to 24 / 48 edges and every unmerged history of <= d operations (see C01)".into(),
                     _ => "every (state, operation) transition of the explored space is executed on the real code and checked against the relational multigraph contract; a second pass repeats every transition with handles of every provenance (clone, graph.get, graph[index], edge endpoint, search result, path node); every alphabet operation is also applied, under the same contract, to every prefix of five long connect-only families on 3 nodes up to 24 (quick) / 48 (thorough) edges; every history of <= d operations (quick: 2 nodes d=5, 3 nodes d=4; thorough: d=6 / 5, 4 nodes d=4) is also executed on one object without merging states and its last call checked against the contract (hidden state surviving a call)".into(),
                 },
